@@ -225,8 +225,13 @@ IOOK(ev) ==
          /\ (p.out = "matrix" => supported /\ got.m = p.h /\ got.n = p.w)
          /\ (p.mut = 0 /\ supported => p.out = "matrix")
 
+\* operations that hand back their result in operand 1 or in a freshly allocated matrix: one of the two must exist
+\* (a NULL return where a matrix is due is a wrong result, not something to evaluate)
+NeedsOut == MulFamily \cup {"add", "_add", "transpose", "copy", "submatrix", "concat", "stack", "extract_u", "extract_l", "inv_m4ri", "invert_naive"}
+OutMissing(ev) == ev.op \in NeedsOut /\ ev.die = 0 /\ OutOf(ev, 1).post = 0
 ResultOK(ev) ==
-  CASE ev.op \in MulFamily -> MulOK(ev)
+  CASE OutMissing(ev) -> FALSE
+    [] ev.op \in MulFamily -> MulOK(ev)
     [] ev.op \in IOFamily -> IOOK(ev)
     [] ev.op \in WordKernelFamily -> WordKernelOK(ev)
     [] ev.op \in AlgFamily -> AlgOK(ev)
